@@ -30,7 +30,7 @@ import vlib
 LEVEL = "model_checking"
 NAMES = ["a.sqf", "d/b.txt", "config.cpp"]
 SIZES = [0, 1, 5]
-DELTAS_QUICK = [-1, 1, 7, 2000000000]
+DELTAS_QUICK = [-2, -1, 1, 7, 2000000000]
 DELTAS_THOROUGH = [-5, -1, 1, 2, 7, 100000, 2000000000]
 WRONG_READERS = [("exposeCut", "InvOnlyIntactExposed"), ("crashOnCutTable", "InvNeverCrashes"),
                  ("createsAbsent", "InvNoSideEffects"), ("dropsEmptyEntries", "InvFaithful")]
@@ -122,7 +122,7 @@ def blob_bytes(blob, size):
 
 
 def u32(x):
-    return struct.pack("<I", x)
+    return struct.pack("<I", x & 0xFFFFFFFF)      # a negative stated size wraps (Huge in Pbo.tla)
 
 
 def pack(arch):
@@ -522,7 +522,9 @@ def random_archive(rng, k, big):
     alphabet = "abcdefghijklmnopqrstuvwxyz0123456789_-."
 
     def word(n):
-        return "".join(rng.choice(alphabet) for _ in range(n))
+        w = "".join(rng.choice(alphabet) for _ in range(n))
+        # "." and ".." are path navigation, not names
+        return w if w.strip(".") else "d" + w[1:]
     props = []
     if rng.random() < 0.85:
         props.append(["prefix", rng.choice(["pfx", "x/addons/main", word(rng.choice([3, 20])) if big else "pfx"])])
@@ -540,6 +542,12 @@ def random_archive(rng, k, big):
                       [word(rng.choice([1, 6, 18, 270 if big and rng.random() < 0.3 else 9])) + rng.choice([".sqf", ".txt", ".paa", ""])])
         if nm not in names:
             names.append(nm)
+    # names related to each other: one the suffix / prefix of another, the same file name in a sub-directory
+    for nm in list(names):
+        r = rng.random()
+        rel = ("fn_" + nm) if r < 0.2 else ("ui" + sep + nm) if r < 0.4 else (nm + "x") if r < 0.5 else None
+        if rel and rel not in names and len(rel) < 250:
+            names.insert(rng.randint(0, len(names)), rel)
     entries = []
     for j, nm in enumerate(names):
         size = rng.choice([0, 1, 2, 16, 255, 256, 257, 1000, 5000] if big else [0, 1, 3, 16, 40])
@@ -618,6 +626,9 @@ def generate(rep, tier, rng):
     # ---- 4. seeded random larger archives: structural truncation points + block boundaries
     nbig = 6 if quick else 120
     rnd = [random_archive(rng, k, big=(k % 2 == 0)) for k in range(nbig)]
+    for k, sep in enumerate(["\\", "/"]):
+        nms = ["init.sqf", "fn_init.sqf", "ui" + sep + "init.sqf", "config.txt", "ui" + sep + "config.txt", "init.sqfx"]
+        rnd.append({"props": [["prefix", "pfx"]], "entries": [{"name": nm, "size": 3 + j, "blob": "rel-%d-%d" % (k, j)} for j, nm in enumerate(nms)]})
     gr = mc("gen_random", mode="given", emit=True, given=rnd, allpoints=False, deltas=deltas, invariants=[], workers=vlib.NCPU, timeout_s=3000, xmx="16g")
     if not gr.ok:
         raise vlib.MachineryError("generator (random archives) failed: %s" % (gr.error or gr.violated))
